@@ -36,7 +36,7 @@ def floors(tier):
     return {"evaluations": 800 if q else 12000, "distinct_nontrivial": 250 if q else 4000, "kind:synth": 500 if q else 8000,
             "kind:curated": 200 if q else 3000, "cycles_checked": 1000 if q else 20000, "no_cycle": 40 if q else 600,
             "start:998": 80 if q else 1200, "start:5000": 80 if q else 1200, "self_loops": 100 if q else 1500, "mem_cycles": 10 if q else 150,
-            "flags_on": 150 if q else 2500, "summary_checked": 700 if q else 10000, "lcd_column_checked": 400 if q else 6000, "report_lcd_column_checked": 400 if q else 6000, "report_lcd_list_checked": 300 if q else 5000, "member_latencies_checked": 1500 if q else 25000, "kernels_of_50_or_more_lines": 15 if q else 300, "maximum_cycle_with_zero_latency_member": 20 if q else 300, "refdeps_compared": 400 if q else 6000}
+            "flags_on": 150 if q else 2500, "summary_checked": 700 if q else 10000, "lcd_column_checked": 400 if q else 6000, "report_lcd_column_checked": 400 if q else 6000, "report_lcd_list_checked": 300 if q else 5000, "member_latencies_checked": 1500 if q else 25000, "kernels_with_line_number_gaps": 150 if q else 2500, "kernels_of_50_or_more_lines": 15 if q else 300, "maximum_cycle_with_zero_latency_member": 20 if q else 300, "refdeps_compared": 400 if q else 6000}
 
 
 def plan(tier, seed):
@@ -91,11 +91,11 @@ def judge(isa, kernel_ast, forms, dg, mm, sem, parser, text, flags, start, R, ca
     k2 = parser.parse_file(text + text)
     sem.add_semantics(k2)
     g2 = dg.create_DG(k2, flags)
-    base = k2[0].line_number
+    pos = {f.line_number: i for i, f in enumerate(k2)}  # by position: line numbers may have gaps (blank lines)
     e2 = {}
     for u, v, d in g2.edges(data=True):
         if int(u) == u and int(v) == v:
-            e2[(int(u) - base, int(v) - base)] = round(float(d["latency"]), 6)
+            e2[(pos[int(u)], pos[int(v)])] = round(float(d["latency"]), 6)
     try:
         ref = RG.cycles_winding_one(n, e2)
     except OverflowError:
@@ -233,7 +233,17 @@ def one_case(kind, isa, vocab, path, ipath, arch, mseed, kseed, R, sample=True):
         kernel_ast = body + last
         flags = False
         R.count("kernels_of_50_or_more_lines")
-    text = "\n".join(i["text"] for i in kernel_ast) + "\n"
+    if krng.random() < 0.25:
+        # blank lines inside the kernel: line numbers with gaps (as after --lines with several ranges)
+        out = []
+        for i in kernel_ast:
+            while krng.random() < 0.3:
+                out.append("")
+            out.append(i["text"])
+        text = "\n".join(out) + "\n"
+        R.count("kernels_with_line_number_gaps")
+    else:
+        text = "\n".join(i["text"] for i in kernel_ast) + "\n"
     case = {"kind": kind, "isa": isa, "arch": arch, "model_seed": mseed, "kernel_seed": kseed, "kernel": text, "flags": flags, "start_line": start}
     try:
         with time_limit(90):
